@@ -274,12 +274,18 @@ func dequeHistoryCase(c *mon.Case) {
 	}
 	start := make(chan struct{})
 	kinds := []string{"push", "push", "pushfront", "pop", "pop", "peek", "peektail", "isempty", "reset"}
+	resetHeavy := r.IntN(4) == 0
+	if resetHeavy {
+		// writers racing Reset; what the list says about itself afterwards is part of the history (final IsEmpty/PeekTail/Pop below)
+		kinds = []string{"push", "push", "pushfront", "pop", "reset", "reset", "isempty"}
+		c.Count("deque_reset_heavy_histories", 1)
+	}
 	for cl := 0; cl < nclients; cl++ {
 		cl := cl
 		seq := make([]string, nops)
 		for i := range seq {
 			seq[i] = kinds[r.IntN(len(kinds))]
-			if seq[i] == "reset" && r.IntN(3) != 0 {
+			if seq[i] == "reset" && !resetHeavy && r.IntN(3) != 0 {
 				seq[i] = "pop"
 			}
 		}
@@ -319,6 +325,13 @@ func dequeHistoryCase(c *mon.Case) {
 		c.Inconclusive("clients did not finish")
 		return
 	}
+	finalEmpty := func() {
+		t0 := c.Stamp()
+		e := l.IsEmpty()
+		t1 := c.Stamp()
+		h.add(porcupine.Operation{ClientId: nclients, Input: sqIn{Op: "isempty"}, Call: t0, Output: sqOut{Ok: e}, Return: t1})
+	}
+	finalEmpty()
 	for {
 		t0 := c.Stamp()
 		tv, tok := l.PeekTail()
@@ -332,6 +345,7 @@ func dequeHistoryCase(c *mon.Case) {
 			break
 		}
 	}
+	finalEmpty()
 	checkHistory(c, "deque", dequeModel, h.ops, "deque_histories_linearizable")
 }
 
